@@ -793,7 +793,10 @@ namespace c08
       "matrices have a full stored diagonal and sorted column indices (documented precondition of SOR/SSOR/ILU); cases whose reference ILU pivot is singular/tiny are excluded and counted",
       "Polynomial with a unit filter is checked on defects that vanish on the filtered dofs (the range of filter_def), against the Neumann polynomial of the free sub-system",
       "apply on a stale preconditioner (values updated, init_numeric not yet re-run) is executed but its result is unspecified and not compared",
-      "generic backend only (no CUDA/MKL); Schwarz/Uzawa/Vanka/AmaVanka are not covered here"};
+      "generic backend only (no CUDA/MKL back ends, no dummy back-end classes); Schwarz/Uzawa/Vanka/AmaVanka are covered by c08_uzawa / c08_vanka / c08_amavanka",
+      "configuration paths: constructor arguments, PropertyMap section (Jacobi, ILU, Polynomial, Scale) and ILU::set_fill_in_param must give bit-identical objects; the PropertyMap "
+      "constructors of SORPrecond/SSORPrecond do not compile when instantiated on the pinned tree (no behaviour to check; branch disabled by VERIF_C08_SOR_PM, observation reported)",
+      "out of scope: name()/bytes()/timing accessors beyond name(), statistics, printing"};
     spec.deadline_quick_s = 500; spec.deadline_thorough_s = 2400;
   }
 } // namespace c08
